@@ -210,7 +210,8 @@ class AddSubtractComp(ExplicitComponent):
                                                     f'equation but had different units '
                                                     f'({prev_units} vs. {units}.')
 
-            sf = scaling_factors[i]
+            # an input that is given more than once is counted once per occurrence
+            sf = sum(f for n, f in zip(input_names, scaling_factors) if n == input_name)
             self.declare_partials([output_name], [input_name],
                                   val=sf * sp.eye(vec_size * length, format='csc'))
             self._input_names[input_name] = {'vec_size': vec_size, 'length': length,
